@@ -6,8 +6,17 @@ Schedule exploration: a generated scenario (senders, callbacks, queue size,
 start/stop program of the main thread) is run on the real WBEMListener code
 under the deterministic cooperative scheduler of pbt/sched.py; the schedule
 (a plain list of ints) decides at every queue / event / sleep / thread start /
-join / callback entry+exit / server accept+shutdown+close point which thread
-continues and which timed wait expires.
+join / callback entry+exit / server accept+shutdown+close / response-complete
+point which thread continues and which timed wait expires.
+
+A sender is a thread that connects to the stub server, is accepted, and waits
+for the complete HTTP response; the stub server starts a handler thread per
+accepted connection (socketserver.ThreadingMixIn) that runs the real
+ListenerRequestHandler (request parsing, do_POST, response) on a stub socket.
+The queue put and the write that completes the response are separate
+scheduling points of that code, so the sender can go on with its next
+indication while the handler thread of the previous one is anywhere behind
+its response.
 """
 
 import traceback
@@ -27,11 +36,19 @@ from . import sched as SC
 PROPERTY = 'C16'
 RULE = (
     "sched: case = (scenario, schedule).  Scenario: max_ind_queue_size in "
-    "{0,1,2}; 1-2 callbacks, each ok/raising and with 0-3 extra scheduling "
-    "points inside; 1-3 senders x 1-3 indications, each sender belongs to a "
-    "wave and is fast or slow (slow = the handler thread waits a virtual "
-    "10 s for the rest of each request, so that by default stop() finds "
-    "the request in flight); main-thread program from 10 templates (stop "
+    "{0,1,2} (0 = unbounded, 40 %); 1-2 callbacks, each ok/raising and with "
+    "0-3 extra scheduling points inside or of long duration (a virtual 1 s = "
+    "ten polls of stop(); by default everything else runs first, so the "
+    "queue fills up); 1-3 senders x 1-3 indications, a sender sends the next "
+    "indication when it has the complete response to the previous one; each "
+    "sender belongs to a wave and has hold flags for the handler threads of "
+    "its requests: slow = the handler thread waits a virtual 10 s for the "
+    "rest of each request, so that by default stop() finds the request in "
+    "flight; lag = the handler thread is held up right after the write that "
+    "completed the response (10 s / 5 s / 3.3 s for the 1st/2nd/3rd request, "
+    "so that by default the handler threads of one sender go on in reverse "
+    "order while the sender already sent the next indication); main-thread "
+    "program from 10 templates (stop "
     "after the senders "
     "finished, stop at any point while they are active, stop+start+second "
     "wave+stop, restart while the first wave is still sending, senders "
@@ -42,18 +59,24 @@ RULE = (
     "uniform, sparse (1-6 non-default choices), bursty or late-random; an "
     "exhausted schedule is completed fairly (non-preemptive, timeouts fire "
     "only when nothing can run).  The real WBEMListener.start/stop/"
-    "_callback_run/_handle_indication/_deliver_indication_to_callbacks and "
-    "the pywbem thread classes run in real threads; queue/Event/sleep/"
-    "Thread start+join/make_server are shims with a scheduling point before "
-    "and after every operation (30-200 decision points per run).  "
+    "_callback_run/_handle_indication/_deliver_indication_to_callbacks, the "
+    "real ListenerRequestHandler (one handler thread per request, on a stub "
+    "socket) and the pywbem thread classes run in real threads; queue/Event/"
+    "sleep/Thread start+join/make_server/the write completing a response are "
+    "shims with a scheduling point before and after every operation (30-200 "
+    "decision points per run).  "
     "sched_small: every schedule with <= 2 (thorough: 3) non-default "
     "choices of four smallest scenarios (1 sender x 1 indication x 1 "
-    "callback: stop while active / after, restart, slow sender), "
+    "callback: stop while active / after, restart, slow sender), and every "
+    "schedule with <= 1 (thorough: 2) of two scenarios with 1 sender x 2 "
+    "indications on an unbounded queue (handler threads lagging / not), "
     "enumerated.  realsock: "
     "the same invariants on the unmodified listener over loopback sockets "
     "with OS scheduling (validates the shim semantics: FIFO, Full, join, "
-    "restart).  Non-trivial = at least 2 indications and at least one "
-    "preemption of the callback thread between get() and task_done() or of "
+    "restart, handler thread per request); in half of the cases the handler "
+    "threads of every other indication sleep 30 ms before and after the "
+    "hand-over to the listener.  Non-trivial = at least 2 indications and at "
+    "least one preemption of the callback thread between get() and task_done() or of "
     "the main thread inside stop() (sched_small: any preemption; realsock: "
     ">= 2 indications).  Distinct = distinct (scenario, effective "
     "schedule).")
@@ -65,10 +88,19 @@ ASSUMPTIONS = [
     "a sender sends its indications one after the other, each after the "
     "response to the previous one (so acknowledgement order = send order)",
     "interleavings are explored at the granularity of queue, Event, sleep, "
-    "thread start/join, callback entry/exit and server accept/shutdown/"
-    "close operations, each operation itself atomic (CPython queue.Queue "
-    "holds its mutex); HTTP parsing and response writing are not part of the "
-    "model (senders call _handle_indication the way do_POST does)",
+    "thread start/join, callback entry/exit, server accept/shutdown/close "
+    "operations and the write that completes a response, each operation "
+    "itself atomic (CPython queue.Queue holds its mutex).  The handler "
+    "threads run the real request handler class on a stub socket: the "
+    "request is completely there when the handler starts (apart from the "
+    "'slow' hold before it), partial response writes are not scheduling "
+    "points (no other thread can observe them), one request per connection "
+    "(a sender that re-uses a kept-alive connection is served by one handler "
+    "thread and cannot be overtaken), senders have no response timeout",
+    "a sender has its acknowledgement when the last byte of the response "
+    "(header block + Content-Length bytes) has been written, not when the "
+    "handler thread ends: http.client / requests return from reading the "
+    "response at that point",
     "the stub server follows socketserver semantics: serve_forever polls and "
     "accepts one connection per iteration, shutdown() waits for the loop, "
     "server_close() frees the port, drops unaccepted connections and joins "
@@ -1000,4 +1032,8 @@ SENSITIVITY = [
     "_stop_indication_delivery: _callback_thread.join() removed -> sched/"
     "stop:leaves-thread-behind:CallbackThread, sched/delivery:sender-order-"
     "changed (two consumers after a restart)",
+    "do_POST: with max_ind_queue_size == 0 the success response is sent "
+    "before _handle_indication() (seeded change6) -> sched/delivery:sender-"
+    "order-changed (878 hits), sched_small/delivery:sender-order-changed, "
+    "realsock/delivery:sender-order-changed",
 ]
